@@ -26,7 +26,7 @@ func init() {
 		Rule: "stage A: every string up to length L over 39 symbols (11 special bytes + 28 verb tokens) and PRNG mutations of well-formed lines go through ParseLine + Text/Target/Public " +
 			"under recover (a panic there kills the receive goroutine), then Go's native coverage-guided fuzzer on the same target for a fixed execution count, recording every panic site instead of stopping at the first; stage B: child processes feed probes (every built-in handler verb x 0..8 odd parameters, raw byte strings) " +
 			"through a live connection with tracking on and off, each followed by numbered well-formed lines and a marker; judged: process survival (crash journal), marker answered, " +
-			"numbered lines in order, and probe either logged as rejected or dispatched exactly once to a handler for its verb. Live probes also include lines shaped after what the built-in and state handlers expect (CAP, 353, 352, MODE, 324/332/311/671, membership verbs, registration numerics, CTCP) with hostile tokens in the slots they index, parameters of 1024 / ~4096 / ~8192 / 20000 bytes, and bursts of 30..120 well-formed lines behind a slow handler. distinct_nontrivial = distinct (stage, verb, arity, parameter-shape / parser outcome) classes.",
+			"numbered lines in order, and probe either logged as rejected or dispatched exactly once to a handler for its verb. Live probes also include lines shaped after what the built-in and state handlers expect (CAP, 353, 352, MODE, 324/332/311/671, membership verbs, registration numerics, CTCP) with hostile tokens in the slots they index, parameters of 1024 / ~4096 / ~8192 / 20000 bytes, and bursts of 30..120 well-formed lines behind a slow handler. Tracked sessions start on two channels with different members; the numbered lines also have a background handler. distinct_nontrivial = distinct (stage, verb, arity, parameter-shape / parser outcome) classes.",
 		Assumptions: []string{
 			"a handler panic swallowed by cfg.Recover is not a violation (counted as recovered_handler_panics)",
 			"a panic inside ParseLine or the accessors is judged in-process under recover: on the receive goroutine it would be fatal",
